@@ -6,7 +6,7 @@ import os
 import sys
 from dataclasses import dataclass, field, make_dataclass
 
-REPO_SRC = os.environ.get('EQL_REPO_SRC', '/repo/src')
+REPO_SRC = os.path.join(os.environ.get('EQL_REPO', '/repo'), 'src')
 if REPO_SRC not in sys.path:
     sys.path.insert(0, REPO_SRC)
 
@@ -335,7 +335,7 @@ def reset_library_state():
     Variable._cache_.clear()
 
 
-def run_case(case, caching=True, evaluations=1, tree_out=None):
+def run_case(case, caching=True, evaluations=1, tree_out=None, ambient=None):
     """Build the case on the implementation and evaluate it; returns a list of outcomes."""
     reset_library_state()
     (enable_caching if caching else disable_caching)()
@@ -348,11 +348,14 @@ def run_case(case, caching=True, evaluations=1, tree_out=None):
                 tree_out.append(b.show_tree())
             except Exception as e:
                 tree_out.append(f'(?tree {type(e).__name__}: {e})')
+        import contextlib
+        ctx = {None: contextlib.nullcontext, 'query': symbolic_mode, 'rule': rule_mode}[ambient]
         for _ in range(evaluations):
-            if case['quant'] == 'the':
-                outs.append(b.run_the())
-            else:
-                outs.append(('rows', b.run_an()))
+            with ctx():
+                if case['quant'] == 'the':
+                    outs.append(b.run_the())
+                else:
+                    outs.append(('rows', b.run_an()))
         return outs
     except Exception as e:  # reported, never swallowed silently
         return [('exc', type(e).__name__, str(e)[:200])]
